@@ -12,6 +12,18 @@ COMMON_NOTE = ("Trusted base: Lean 4.33 kernel; axioms ⊆ {propext, Classical.c
                "by exact-float inputs or bounded by a tolerance. ")
 
 CLAIMS = {
+    'C20': dict(
+        text="Theorems (Props/C20.lean, 17, unbounded, none partial): for all connector tables, under PreUnique (one presynaptic neuron per "
+             "connector id) the edge stream of the NeuronConnector model is a permutation of the relational join of pre- and postsynaptic "
+             "rows with exact multiplicities (polyadic / duplicated rows), `__OTHER__` edges exactly when requested; for every edge stream "
+             "adjacency cell = digraph weight = number of multigraph edges, with equal per-edge connector and node ids; group_matrix(SUM) "
+             "conserves the total for every grouping (kept sub-matrix total under drop_ungrouped); run-time checkers proved sound. Tie: real "
+             "TreeNeuron/NeuronConnector/group_matrix output vs the compiled model on exhaustive small tables and structured random "
+             "tables, plus the Lean checker and independent oracles on navis' own output.",
+        note="Outside PreUnique navis keeps only the last presynaptic writer (documented by a proved witness, checked by correspondence only). "
+             "pandas groupby/itertuples and networkx are modelled; AVERAGE compared with relative tolerance 1e-11.",
+        technique="Lean 4 proof (edge multiset = relational join; three views agree) + differential correspondence",
+        ref="§5 C20"),
     'C01': dict(
         text="Theorems (Props/C01.lean, unbounded): the executable check wfB decides the rank-form well-formedness WF (unique non-negative ids, "
              "parents present, acyclic) exactly; labelsOKB means 'label = labelOf(child count, is-root)'; navis' classify rule computes that "
